@@ -54,10 +54,10 @@ theorem customNoAp_eq (u H : CGrid ℝ n m) :
   unfold customNoAp mul
   rw [ifftshift_zipWith, ifftshift_fftshift]
 
-/-- the aperture enters `custom` squared -/
+/-- `custom` is the aperture-free pipeline with the kernel `H · A` (kernel once, aperture once) -/
 theorem custom_eq_customNoAp (u H A : CGrid ℝ n m) :
-    custom u H A = customNoAp u (mul (mul H A) A) := by
-  have key : mul (mul H A) (mul (fftshift (fft2 u)) A) = mul (mul (mul H A) A) (fftshift (fft2 u)) := by
+    custom u H A = customNoAp u (mul H A) := by
+  have key : mul H (mul (fftshift (fft2 u)) A) = mul (mul H A) (fftshift (fft2 u)) := by
     apply toCG_injective
     simp only [toCG_mul]
     ring
@@ -93,12 +93,11 @@ theorem energy_custom_le (u H A : CGrid ℝ n m) (hH : ∀ i j, Cx.normSq (H.get
   rw [custom_eq_customNoAp]
   apply energy_customNoAp_le
   intro i j
-  rw [get_mul, get_mul, Cx.normSq_mul', Cx.normSq_mul']
+  rw [get_mul, Cx.normSq_mul']
   have h1 := hH i j
   have h2 := hA i j
-  have h3 := Cx.normSq_nonneg' (H.get i j)
   have h4 := Cx.normSq_nonneg' (A.get i j)
-  exact mul_le_one₀ (mul_le_one₀ h1 h4 h2) h4 h2
+  exact mul_le_one₀ h1 h4 h2
 
 /-! ### 10. semigroup law -/
 
